@@ -21,6 +21,7 @@ import (
 	"github.com/tailscale/setec/db"
 	"github.com/tailscale/setec/server"
 	"github.com/tailscale/setec/types/api"
+	"tailscale.com/client/tailscale/apitype"
 )
 
 type concCall struct {
@@ -69,14 +70,29 @@ func traceConc(o opts) error {
 		if r.Intn(3) == 0 {
 			via = "http"
 		}
-		var cl setec.Client
+		var cl, clIntruder setec.Client
 		if via == "http" {
 			mux := http.NewServeMux()
 			ctx, cancel := context.WithCancel(context.Background())
 			defer cancel()
-			if _, err := server.New(ctx, server.Config{DB: d, Mux: mux, WhoIs: allAccessWhoIs}); err != nil {
+			whois := func(cx context.Context, addr string) (*apitype.WhoIsResponse, error) {
+				if strings.HasPrefix(addr, "100.64.0.66") {
+					// the intruder: identified, but its only grant is on a name nobody uses
+					ws := &whoSpec{node: "intruder.ts.net", login: "intruder@example.com", cap1: "rules", cap2: "none",
+						rules1: acl.Rules{{Action: []acl.Action{acl.ActionGet, acl.ActionInfo, acl.ActionPut}, Secret: []acl.Secret{"zzz"}}}}
+					return ws.answer()
+				}
+				return allAccessWhoIs(cx, addr)
+			}
+			if _, err := server.New(ctx, server.Config{DB: d, Mux: mux, WhoIs: whois}); err != nil {
 				return err
 			}
+			clIntruder = setec.Client{Server: "http://conc", DoHTTP: func(req *http.Request) (*http.Response, error) {
+				req.RemoteAddr = "100.64.0.66:1"
+				rec := httptest.NewRecorder()
+				mux.ServeHTTP(rec, req)
+				return rec.Result(), nil
+			}}
 			cl = setec.Client{Server: "http://conc", DoHTTP: func(req *http.Request) (*http.Response, error) {
 				req.RemoteAddr = "100.64.0.9:1"
 				rec := httptest.NewRecorder()
@@ -104,6 +120,8 @@ func traceConc(o opts) error {
 				op.val = []byte(fmt.Sprintf("t%dk%d", t, k))
 				if r.Intn(4) == 0 {
 					op.val = []byte("same")
+				} else if r.Intn(8) == 0 {
+					op.val = []byte{} // an empty value is a value
 				}
 				progs[t] = append(progs[t], op)
 			}
@@ -128,9 +146,51 @@ func traceConc(o opts) error {
 				}
 			}
 		}
-		results := make([][]concCall, nthreads)
+		// one history in eight: several callers put the very same new bytes under one name at once
+		// (they must all be told the same version number) while the lock is kept busy
+		if !listHeavy && via == "db" && r.Intn(8) == 0 {
+			listHeavy = true // (the lock-contention goroutines)
+			names = []string{"x"}
+			nthreads = 4
+			progs = make([][]dbOp, 4)
+			for t := 0; t < 4; t++ {
+				for k := 0; k < 3; k++ {
+					progs[t] = append(progs[t], dbOp{aok: 1, sok: true, kind: "put", name: "x", val: []byte(fmt.Sprintf("dup%d", k))})
+				}
+			}
+		}
+		results := make([][]concCall, nthreads+1) // the last one is the intruder's
 		var wg sync.WaitGroup
 		start := make(chan struct{})
+		// an intruder: a caller without any grant on the names in play makes the same requests as
+		// the others, at the same time; every one of them must be refused
+		intruder := r.Intn(2) == 0
+		var intruderLeaks atomic.Int64
+		if intruder {
+			wg.Add(1)
+			go func() {
+				defer wg.Done()
+				<-start
+				c := db.Caller{Principal: su.Principal, Permissions: acl.Rules{{Action: []acl.Action{acl.ActionGet, acl.ActionInfo, acl.ActionPut}, Secret: []acl.Secret{"zzz"}}}}
+				c.Principal.Hostname = fmt.Sprintf("conc-t%d", nthreads)
+				for k := 0; k < 8; k++ {
+					op := dbOp{aok: 1, sok: true, name: names[k%len(names)], ver: uint32(1 + k%3), val: []byte("intruder")}
+					op.kind = []string{"get", "getcond", "getver", "info", "get", "put", "get", "getcond"}[k]
+					inv := clock.Add(1)
+					var res string
+					if via == "db" {
+						res = execDirect(d, c, op)
+					} else {
+						res = execClient(clIntruder, op)
+					}
+					ret := clock.Add(1)
+					results[nthreads] = append(results[nthreads], concCall{nthreads, op, res, inv, ret})
+					if res != "denied" {
+						intruderLeaks.Add(1)
+					}
+				}
+			}()
+		}
 		// in a third of the direct histories the state directory disappears for short moments, so
 		// some saves fail while other calls are running
 		faulty := via == "db" && r.Intn(3) == 0
@@ -210,9 +270,10 @@ func traceConc(o opts) error {
 		if err != nil {
 			final = "ERR:" + hx(err.Error())
 		}
+		memFinal := memState(d, &sink{})
 		var parts []string
 		ncalls := 0
-		for _, rs := range results {
+		for _, rs := range results[:nthreads] {
 			for _, c := range rs {
 				ncalls++
 				parts = append(parts, fmt.Sprintf("%d/%d/%d/%s/%s/%d/%s/%s", c.thread, c.inv, c.ret, c.op.kind, hx(c.op.name), c.op.ver, hb(c.op.val), c.res))
@@ -240,7 +301,7 @@ func traceConc(o opts) error {
 		if via == "db" {
 			ss.mu.Lock()
 			for _, w := range ss.writes {
-				if w.thread < 0 || w.thread >= nthreads {
+				if w.thread < 0 || w.thread > nthreads {
 					continue
 				}
 				for _, c := range results[w.thread] {
@@ -262,7 +323,7 @@ func traceConc(o opts) error {
 		if faulty {
 			via = "db+faults"
 		}
-		emit("conc\tvia=%s\tseed=%s\tcalls=%s\tfinal=%s\taudit=%s/%d/%d\tunsynced=%d", via, seedState, strings.Join(parts, ";"), final, wellFormed, lines, ncalls+nseed, unsynced)
+		emit("conc\tvia=%s\tseed=%s\tcalls=%s\tfinal=%s\taudit=%s/%d/%d\tunsynced=%d\tintruder_leaks=%d\tmemfinal=%s", via, seedState, strings.Join(parts, ";"), final, wellFormed, lines, ncalls+nseed, unsynced, intruderLeaks.Load(), memFinal)
 		os.RemoveAll(dir)
 	}
 	return nil
